@@ -215,12 +215,15 @@ PROPS["C11"] = {
     "level_text": "Partial. combine_denotes / combineList_denotes: for EVERY expression tree (any depth, any nesting of Add/Subtract/Intersect/RemoveInterior/Path), membership of a probe in path_combine's result "
                   "is the set-algebra denotation of the tree, given the membership contract of the primitives (C01, C12). cut_predicates: the two passes of path_cut / path_full_intersect use exactly the "
                   "intersect and subtract predicates, so their parts are A&B, A-B (and B-A); chain_spec: path_add_chain's predicate is 'some operand odd' = n-ary union for any number of operands. "
-                  "Everything C01 proves about the classification loop applies to each pass; the model is tied by replaying the H2 trace of every pass. NOT proved: the contract itself "
+                  "Everything C01 proves about the classification loop applies to each pass; the model is tied by replaying the H2 trace of every pass. The model of path_combine is tied by hook H4: "
+                  "for random expression trees the operations the implementation enters, in order and with their operands (by fingerprint), must be exactly those the model performs on symbolic "
+                  "path sets, and every classification pass inside the tree is replayed with that operation's predicate. NOT proved: the contract itself "
                   "(geometry: C01's gap), and that cut's two passes partition the edges (checked by the search: interior+exterior == originals by membership).",
     "level_note": "Known findings (known_findings.json): C01's tangent/coincident classes seen through the derived operations, one add_chain class with 5-6 touching operands. " + COMMON_NOTE,
-    "rule": "corr: path_cut, path_full_intersect, path_add_chain (2..6 operands) and path_combine trees on random shapes; all classification passes replayed from the H2 trace. search: probe membership of each "
+    "rule": "corr: path_cut, path_full_intersect, path_add_chain (3 operands) on random shapes, and path_combine on random expression trees (depth <= 3, 0..3 operands per node, empty and "
+            "two-shape leaves, RemoveInteriorPoints leaves): operation sequence and operands against the model (H4), all classification passes replayed from the H2 trace. search: probe membership of each "
             "derived result against the composition of the independent winding oracle; cut's parts against intersect/sub. Non-trivial: boundaries cross; distinct by input.",
-    "trusted_base": ["hook H2", "hand model Model/RayCast.lean (tied by trace replay)", "search oracle: winding number of a 1/256 flattening"],
+    "trusted_base": ["hooks H2, H4", "hand model Model/RayCast.lean (classification loop tied by trace replay, path_combine by operation-sequence correspondence)", "search oracle: winding number of a 1/256 flattening"],
     "assumptions": ["the primitives' membership contract is a hypothesis of combine_denotes (it is C01/C12's statement)"],
 }
 
